@@ -1,4 +1,5 @@
 import Pm.TelnetPass
+import Pm.CapProof
 /-! # C09 — the byte streams between the daemon and its devices and clients are carried faithfully
 
 What expect patterns are matched against is exactly the byte stream the device sent on the current connection — in
@@ -7,16 +8,28 @@ how the stream was split into reads (NUL is presented as 0xFF); nothing received
 after a reconnect.  Symmetrically, bytes queued for a device or client are delivered exactly once and in order
 however the writes are split.
 
-All statements are for every byte stream, every segmentation, every device state: no bounds.  The model keeps
-`fromBuf`/`toBuf` as unbounded lists, so "while unconsumed data stays within buffer capacity" is the model's standing
-assumption (the cbuf wrap of `MAX_DEV_BUF` is not modelled).
+All statements are for every byte stream, every segmentation, every device state: no bounds.
+
+Capacity is modelled on the read side (section 7): the input buffers are liblsd circular buffers (`Pm/Cbuf.lean`:
+`size` starts at 1024, grows in chunks when the buffer is full, up to 64 KiB for a device and 1 MiB for a client, never
+shrinks).  One `read` asks for the free space (a chunk of 1000 when there is none), so what a pass takes in is a *prefix*
+of what the kernel has (`readOf`, `readTaken`; the rest stays in the kernel for the next pass), and only a buffer that is
+full at its maximal size overwrites its oldest unread bytes (`dropOf`, `readDropped`).  "While unconsumed data stays
+within buffer capacity" is therefore no longer a standing assumption but a hypothesis that can be read off the theorems:
+`readDropped = 0` unless `fromBuf.length = fromSize = max` (`C09_no_loss_below_max`), and the overwritten bytes are
+exactly the oldest ones (`C09_overflow_drops_oldest`).  On the write side the model keeps `toBuf` as an unbounded list
+(the cbuf of `MAX_DEV_BUF` on the way *to* a device is not modelled); a device `write` takes what the kernel has room
+for (`C09_device_short_write`).
 
 Sections: 1 segmentation independence ▸ 2 what the decoder keeps (specification without the state machine) ▸
 3 the read side: `_handle_ready_device`, `_process_expect`, any interleaving ▸ 4 reconnects ▸ 5 the write side ▸
-6 whole passes of `dev_post_poll` and runs of passes (the property as an invariant of the daemon loop). -/
+6 whole passes of `dev_post_poll` and runs of passes (the property as an invariant of the daemon loop) ▸
+7 capacity: what is read is a prefix, the size invariant, no loss below the maximum, the exact loss at the maximum,
+short writes. -/
 namespace Pm.Props.C09
 open Pm.Dev2
 open Pm.Dev2.Tel Pm.Daemon.Tel
+open Pm.Dev2.Cap
 
 /-- a device with nothing configured and nothing pending, for the examples -/
 def dev0 : Dev :=
@@ -108,19 +121,30 @@ example : (255 : UInt8) ∉ [97, 98, 0, 10, 254] := by decide
 
 /-! ## 3. the read side -/
 
-/-- `_handle_ready_device` when poll reports the descriptor readable (and not writable) and `read` returns `bs`:
-    `fromBuf` becomes the old `fromBuf` followed by what the decoder keeps of `bs`, continued from the state the device
-    carries (tcp), or followed by `bs` itself (coprocess); no I/O error is reported. -/
+/-- `_handle_ready_device` when poll reports the descriptor readable (and not writable) and the kernel has `bs` to hand
+    out.  The bytes *read* are `readOf c.dev bs`, the prefix of `bs` the input buffer asks for (`C09_read_is_prefix`);
+    `devClip c.dev bs` is the device after the capacity half of the `read`: the buffer has grown if it was full and its
+    `dropOf c.dev bs` oldest bytes have given way (none below `MAX_DEV_BUF`, `C09_no_loss_below_max`).  Then `fromBuf`
+    becomes that `fromBuf` followed by what the decoder keeps of the bytes read, continued from the state the device
+    carries (tcp), or followed by the bytes read themselves (coprocess); the `read` is logged with the number of bytes
+    read; no I/O error is reported. -/
 theorem C09_read_side (c : CS) (bs : Bytes) (h : ReadyOk c)
     (hout : c.env.revents &&& 2 = 0) (hin : c.env.revents &&& 1 ≠ 0)
     (hr : c.env.read = some (some bs)) (hbs : bs ≠ []) :
-    handleReady c = ({ c with sys := c.sys ++ [.read bs.length], dev := absorb c.dev bs }, false) ∧
-    (absorb c.dev bs).fromBuf = c.dev.fromBuf ++ keptOf c.dev bs ∧
-    (c.dev.isPipe = false → keptOf c.dev bs = (decodeFrom c.dev.tstate c.dev.tcmd bs).kept ∧
-        absorb c.dev bs = telnetFilter c.dev bs) ∧
-    (c.dev.isPipe = true → keptOf c.dev bs = bs) := by
-  refine ⟨handleReady_read_only c bs h hout hin hr hbs, absorb_fromBuf _ _, ?_, ?_⟩
-  · intro hp; simp [keptOf, absorb, hp]
+    handleReady c = ({ c with env := { c.env with read := some (some (readOf c.dev bs)) },
+                              sys := c.sys ++ [.read (readOf c.dev bs).length],
+                              dev := absorb (devClip c.dev bs) (readOf c.dev bs) }, false) ∧
+    (absorb (devClip c.dev bs) (readOf c.dev bs)).fromBuf =
+      c.dev.fromBuf.drop (dropOf c.dev bs) ++ keptOf c.dev (readOf c.dev bs) ∧
+    (c.dev.isPipe = false → keptOf c.dev (readOf c.dev bs) = (decodeFrom c.dev.tstate c.dev.tcmd (readOf c.dev bs)).kept ∧
+        absorb (devClip c.dev bs) (readOf c.dev bs) = telnetFilter (devClip c.dev bs) (readOf c.dev bs)) ∧
+    (c.dev.isPipe = true → keptOf c.dev (readOf c.dev bs) = readOf c.dev bs) ∧
+    readOf c.dev bs <+: bs ∧ readOf c.dev bs ≠ [] := by
+  refine ⟨handleReady_read_only c bs h hout hin hr hbs, ?_, ?_, ?_, readOf_prefix _ _, readOf_ne_nil _ _ hbs⟩
+  · rw [absorb_fromBuf]; rfl
+  · intro hp
+    have hp' : (devClip c.dev bs).isPipe = false := hp
+    simp [keptOf, absorb, hp, hp']
   · intro hp; simp [keptOf, hp]
 
 /-- the hypotheses are satisfiable: a connected tcp device, readable, the F4 stream's second half arriving while the
@@ -138,24 +162,27 @@ example :
                        read := some (some [253, 1, 99, 10]), writeOk := true },
               sys := [] } := ⟨by decide, by decide, by decide, by decide, by decide⟩
 
-/-- The same when the descriptor is also writable, connected, with output queued, and the `write` succeeds: `toBuf`
-    goes out whole first, then the bytes read are taken in. -/
+/-- The same when the descriptor is also writable, connected, with output queued, and the `write` succeeds (the kernel
+    takes `wcap ≥ 1` bytes): the first `wcap` bytes of `toBuf` go out first — the rest stays queued —, then the bytes
+    read are taken in. -/
 theorem C09_read_side_after_write (c : CS) (bs : Bytes) (h : ReadyOk c)
     (hout : c.env.revents &&& 2 ≠ 0) (hin : c.env.revents &&& 1 ≠ 0) (hc : c.dev.conn ≠ 1) (hb : c.dev.toBuf ≠ [])
-    (hw : c.env.writeOk = true) (hr : c.env.read = some (some bs)) (hbs : bs ≠ []) :
+    (hw : c.env.writeOk = true) (hcap : c.env.wcap ≠ 0) (hr : c.env.read = some (some bs)) (hbs : bs ≠ []) :
     handleReady c =
-      ({ c with sys := c.sys ++ [.write c.dev.toBuf true, .read bs.length],
-                dev := absorb { c.dev with toBuf := [] } bs }, false) :=
-  handleReady_write_read c bs h hout hin hc hb hw hr hbs
+      ({ c with env := { c.env with read := some (some (readOf c.dev bs)) },
+                sys := c.sys ++ [.write (c.dev.toBuf.take c.env.wcap) true, .read (readOf c.dev bs).length],
+                dev := absorb (devClip { c.dev with toBuf := c.dev.toBuf.drop c.env.wcap } bs) (readOf c.dev bs) }, false) :=
+  handleReady_write_read c bs h hout hin hc hb hw hcap hr hbs
 
 /-- Every call of `_handle_ready_device`, no hypotheses: seen from the read side (transport, decoder state, pending
-    bytes) either nothing happened, or the read branch ran and took in exactly the bytes `read` returned, or a
-    connection attempt completed — then nothing was read and the decoder was put at rest. -/
+    bytes) either nothing happened, or the read branch ran — the kernel had `bs`, the `dropOf c.dev bs` oldest pending
+    bytes were overwritten (none unless the buffer is full at `MAX_DEV_BUF`) and exactly the bytes read, `readOf c.dev bs`,
+    were taken in —, or a connection attempt completed — then nothing was read and the decoder was put at rest. -/
 theorem C09_read_side_all_cases (c : CS) :
     rview (handleReady c).1.dev = rview c.dev ∧ (handleReady c).1.dev.statConnects = c.dev.statConnects ∨
     (∃ bs, c.env.read = some (some bs) ∧ bs ≠ [] ∧ c.env.revents &&& 1 ≠ 0 ∧ (handleReady c).2 = false ∧
        (handleReady c).1.dev.conn = c.dev.conn ∧ (handleReady c).1.dev.statConnects = c.dev.statConnects ∧
-       rview (handleReady c).1.dev = (rview c.dev).read bs) ∨
+       rview (handleReady c).1.dev = ((rview c.dev).consume (dropOf c.dev bs)).read (readOf c.dev bs)) ∨
     (c.dev.conn = 1 ∧ (handleReady c).1.dev.conn = 2 ∧ (handleReady c).2 = false ∧
        (handleReady c).1.dev.statConnects = c.dev.statConnects + 1 ∧
        rview (handleReady c).1.dev = { rview c.dev with st := 0, cmd := 0 }) :=
@@ -239,16 +266,20 @@ example :
 
 /-- The same on the model's own functions: from any state of an established connection, after any sequence of
     `_handle_ready_device` calls (any kernel answers) and `_process_expect` calls (any pattern, any answer of the regex
-    engine), the bytes the expects removed followed by `fromBuf` are the old `fromBuf` followed by the decoder's
-    output — continued from the state carried at the start — on the concatenation of everything `read` delivered;
-    the carried state is the one that concatenation leads to; the connection is still the same one. -/
+    engine), the bytes removed from the head of `fromBuf` (`opsConsumed`: what the expects matched and — only in calls
+    that found the buffer full at `MAX_DEV_BUF`, `C09_no_loss_below_max` — what a `read` overwrote, in the order in which
+    they went) followed by `fromBuf` are the old `fromBuf` followed by the decoder's output — continued from the state
+    carried at the start — on the concatenation of everything that was read (`opsTaken`: the prefixes `readTaken` of what
+    the kernel had in each call); the carried state is the one that concatenation leads to; the connection is still the
+    same one. -/
 theorem C09_interleaving_model (d : Dev) (h2 : d.conn = 2) (ops : List Op) :
     opsConsumed d ops ++ (ops.foldl Op.run d).fromBuf = d.fromBuf ++ keptOf d (opsTaken d ops) ∧
     rview (ops.foldl Op.run d) = { (rview d).read (opsTaken d ops) with buf := (ops.foldl Op.run d).fromBuf } ∧
     (ops.foldl Op.run d).conn = 2 :=
   ops_conservation d h2 ops
 
-/-- `readTaken`, the bytes a call takes in, is what the system-call log records as read. -/
+/-- `readTaken`, the bytes a call takes in, is what the system-call log records as read: the `Y read <fd> <n>` line of a
+    pass shows the number of bytes read (the clipped prefix), not what the kernel had. -/
 theorem C09_taken_is_logged (c : CS) (h : readTaken c ≠ []) :
     ∃ pre, (handleReady c).1.sys = pre ++ [.read (readTaken c).length] :=
   handleReady_taken_sys c h
@@ -302,13 +333,18 @@ example :
 
 /-! ## 5. the write side -/
 
-/-- Device: the `write` issued by `_handle_ready_device` carries all of `toBuf`; if it succeeds `toBuf` is empty
-    afterwards, if it fails `toBuf` is unchanged and an I/O error is returned (the caller reconnects, which flushes). -/
+/-- Device: the `write` issued by `_handle_ready_device` (`cbuf_read_to_fd (dev->to, fd, -1)`) offers all of `toBuf`; the
+    kernel takes the first `wcap` bytes, which leave `toBuf`, and the rest stays queued for the next pass — a short write
+    is not an error; if the kernel takes nothing (`wcap = 0`: `EAGAIN`) or the `write` fails (`writeOk = false`: `EPIPE`),
+    `toBuf` is unchanged and an I/O error is returned (the caller reconnects, which flushes).  With `wcap ≥ |toBuf|` this
+    is "everything goes out and `toBuf` is empty" (`List.take_of_length_le`, `List.drop_eq_nil_of_le`). -/
 theorem C09_device_write (c : CS) (h : ReadyOk c)
     (hout : c.env.revents &&& 2 ≠ 0) (hin : c.env.revents &&& 1 = 0) (hc : c.dev.conn ≠ 1) (hb : c.dev.toBuf ≠ []) :
     handleReady c =
       if c.env.writeOk then
-        ({ c with sys := c.sys ++ [.write c.dev.toBuf true], dev := { c.dev with toBuf := [] } }, false)
+        if c.env.wcap == 0 then ({ c with sys := c.sys ++ [.write [] true] }, true)
+        else ({ c with sys := c.sys ++ [.write (c.dev.toBuf.take c.env.wcap) true],
+                       dev := { c.dev with toBuf := c.dev.toBuf.drop c.env.wcap } }, false)
       else ({ c with sys := c.sys ++ [.write c.dev.toBuf false] }, true) :=
   handleReady_write_only c h hout hin hc hb
 
@@ -317,9 +353,9 @@ example :
                    env := { now := 0, revents := 2, sockets := [], connects := [], soerrs := [], read := none, writeOk := true },
                    sys := [] }).1.dev.toBuf = [] := by decide
 
-/-- Device, every call of `_handle_ready_device`, no hypotheses: the bytes written successfully so far followed by
-    `toBuf` change only by growing at the end, by the telnet option replies to what this call read.  So between
-    reconnects every queued byte reaches the descriptor once, in order. -/
+/-- Device, every call of `_handle_ready_device`, no hypotheses, any capacity of the descriptor: the bytes written
+    successfully so far followed by `toBuf` change only by growing at the end, by the telnet option replies to what this
+    call read.  So between reconnects every queued byte reaches the descriptor once, in order, however short the writes. -/
 theorem C09_device_write_conserved (c : CS) :
     ∃ bs, devWritten (handleReady c).1.sys ++ (handleReady c).1.dev.toBuf =
       devWritten c.sys ++ c.dev.toBuf ++ repliesOf c.dev bs :=
@@ -371,11 +407,14 @@ theorem C09_process_action_read_side (fuel : Nat) (c : CS) (o : Oracle) (out : L
   processActionF_passRel fuel c o out tmo
 
 /-- One whole pass on an established connection: either the connection is still the same one and the read side is
-    the old one advanced by exactly the bytes the descriptor delivered in this pass (`passTaken`), minus a prefix the
-    expects consumed; or the device reconnected and nothing of the old connection is left. -/
+    the old one — less its `passDropped d env` oldest pending bytes, overwritten by the `read` (0 unless the input buffer is
+    full at `MAX_DEV_BUF`: `C09_pass_no_loss`) — advanced by exactly the bytes read from the descriptor in this pass
+    (`passTaken`, a prefix of what the kernel had), minus a prefix the expects consumed; or the device reconnected and
+    nothing of the old connection is left. -/
 theorem C09_pass_connected (d : Dev) (env : Env) (o : Oracle) (h2 : d.conn = 2) :
     ((postPoll d env o).1.dev.conn = 2 ∧ (postPoll d env o).1.dev.statConnects = d.statConnects ∧
-      ∃ k, rview (postPoll d env o).1.dev = ((rview d).read (passTaken d env)).consume k) ∨
+      ∃ k, rview (postPoll d env o).1.dev =
+        (((rview d).consume (passDropped d env)).read (passTaken d env)).consume k) ∨
     Reconn d (postPoll d env o).1.dev :=
   postPoll_connected d env o h2
 
@@ -392,11 +431,14 @@ theorem C09_pass_fresh (d : Dev) (env : Env) (o : Oracle) (hq : Quiet d) (hr : d
   postPoll_fresh d env o hq hr hn
 
 /-- The property as an invariant of the daemon's loop.  Run any number of passes, each with its own kernel answers and
-    regex answers; carry along, as a ghost, the stream `S` the descriptor has delivered on the connection that is up
-    (reset whenever that connection is not the same any more).  Then at every point: while a connection is up,
-    `fromBuf` is `strip S` (tcp) or `S` (coprocess) minus a consumed prefix — so what expects are matched against is
-    exactly the decoded stream of the current connection, in order, nothing lost, nothing duplicated, nothing from an
-    earlier connection — and the decoder is in the state `S` leads to; while none is up, both buffers are empty. -/
+    regex answers; carry along, as a ghost, the stream `S` the daemon has read from the descriptor on the connection that
+    is up (`passTaken` of each pass, appended; reset whenever that connection is not the same any more).  Then at every
+    point: while a connection is up, `fromBuf` is `strip S` (tcp) or `S` (coprocess) minus a prefix — what the expects
+    consumed and, only in passes whose `read` found `MAX_DEV_BUF` unconsumed bytes pending, the oldest bytes that `read`
+    overwrote (`passDropped`, 0 otherwise: `C09_pass_no_loss`) — so what expects are matched against is exactly the
+    decoded stream of the current connection, in order, nothing duplicated, nothing from an earlier connection, nothing
+    lost while the unconsumed data stays within the buffer's capacity — and the decoder is in the state `S` leads to;
+    while none is up, both buffers are empty. -/
 theorem C09_run (s : Dev × Bytes) (ps : List (Env × Oracle)) (hg : Good s) (hr : RunOk s ps) :
     Good (ps.foldl passStep s) :=
   run_good s ps hg hr
@@ -446,5 +488,213 @@ theorem C09_envok_needed_witness :
     Quiet d ∧ (postPoll d env ⟨[]⟩).1.dev.conn = 1 ∧ (postPoll d env ⟨[]⟩).1.dev.fromBuf = [255, 97] ∧
     strip [255, 97] = [] := by
   refine ⟨fun _ => ⟨rfl, rfl⟩, ?_, ?_, ?_⟩ <;> decide +kernel
+
+/-! ## 7. capacity
+
+`Pm.Cbuf.readPlan size used max avail = (n, size', dropped)` is `cbuf_write_from_fd (cb, fd, -1, &dropped)` for a buffer of
+`size` bytes holding `used` unread ones when the kernel has `avail` bytes: `n = min (size - used, or 1000 if that is 0)
+avail` bytes are read, the buffer has grown to `size'` (only when it was full; before the `read`, also when the `read`
+then fails), and the `dropped` oldest unread bytes are overwritten.  Devices: `devReadPlan`, `readOf`, `dropOf`,
+`readTaken c`/`readDropped c` (what a call of `_handle_ready_device` reads/overwrites: `[]`/`0` when its read branch is not
+reached), `max = MAX_DEV_BUF = 65536`.  Clients: `cliRead` is the read stage of `clientPass` (`C09_client_pass_stages`),
+`cliTaken`/`cliDropped`/`cliSizeAfter`, `max = MAX_CLIENT_BUF = 1048576`.  Helper lemmas: `Pm/CapProof.lean`,
+`Pm/Dev2Clip.lean`, `Pm/Cbuf.lean`. -/
+
+/-- the constants -/
+theorem C09_buffer_sizes : devBufMax = 65536 ∧ Pm.Daemon.cliBufMax = 1048576 ∧ dev0.fromSize = 1024 ∧
+    ({ id := 1, fd := 1000 } : Pm.Daemon.Cli).fromSize = 1024 := ⟨rfl, rfl, rfl, rfl⟩
+
+/-- **What a pass takes in is a prefix of what the kernel offered, of the planned length — device.**  Every call of
+    `_handle_ready_device`, every state, every kernel answer: the input buffer afterwards is the old one, less its
+    `readDropped c` oldest bytes, followed by what the daemon keeps (`keptOf`: all of it on a coprocess, the telnet
+    decoder's output on tcp) of the bytes read, `readTaken c`; and when the kernel had `bs`, the bytes read are nothing
+    (the read branch was not reached) or the first `(readPlan …).1` bytes of `bs`. -/
+theorem C09_read_is_prefix (c : CS) :
+    (handleReady c).1.dev.fromBuf = c.dev.fromBuf.drop (readDropped c) ++ keptOf c.dev (readTaken c) ∧
+    (∀ bs, c.env.read = some (some bs) →
+      readTaken c <+: bs ∧
+      (readTaken c = [] ∨
+       readTaken c = bs.take (Pm.Cbuf.readPlan c.dev.fromSize c.dev.fromBuf.length 65536 bs.length).1)) ∧
+    ((∀ bs, c.env.read ≠ some (some bs)) → readTaken c = []) :=
+  ⟨handleReady_fromBuf c, fun bs hr => ⟨readTaken_isPrefix c bs hr, readTaken_prefix c bs hr⟩, readTaken_nodata c⟩
+
+/-- `readOf d bs`, the bytes one `read` takes when the kernel has `bs`, spelled out -/
+theorem C09_readOf (d : Dev) (bs : Bytes) :
+    readOf d bs = bs.take (Pm.Cbuf.readPlan d.fromSize d.fromBuf.length 65536 bs.length).1 ∧
+    (readOf d bs).length = (Pm.Cbuf.readPlan d.fromSize d.fromBuf.length 65536 bs.length).1 ∧
+    (bs ≠ [] → readOf d bs ≠ []) :=
+  ⟨rfl, readOf_length d bs, readOf_ne_nil d bs⟩
+
+/-- 1020 bytes pending in the initial buffer of 1024: of ten bytes offered, four are read; the buffer does not grow -/
+example : readOf { dev0 with fromBuf := List.replicate 1020 97 } [1, 2, 3, 4, 5, 6, 7, 8, 9, 10] = [1, 2, 3, 4] ∧
+    sizeAfter { dev0 with fromBuf := List.replicate 1020 97 } [1, 2, 3, 4, 5, 6, 7, 8, 9, 10] = 1024 := by decide +kernel
+/-- the buffer full: it grows (to 2983) and a chunk is asked for -/
+example : readOf { dev0 with fromBuf := List.replicate 1024 97 } [1, 2, 3] = [1, 2, 3] ∧
+    sizeAfter { dev0 with fromBuf := List.replicate 1024 97 } [1, 2, 3] = 2983 ∧
+    dropOf { dev0 with fromBuf := List.replicate 1024 97 } [1, 2, 3] = 0 := by decide +kernel
+
+open Pm.Daemon Pm.Daemon.ClientPf Pm.Daemon.Cap in
+/-- **The same for a client.**  `clientPass` is: the descriptor's error bits; the read stage `cliRead`; `_handle_write`;
+    `_handle_input`; the destruction of a client that has quit. -/
+theorem C09_client_pass_stages (w : W) (c : Cli) (e : Option FdEnv) :
+    clientPass w c e =
+      (if cpRev c e &&& 8 != 0 || cpRev c e &&& 16 != 0 then cpDead w c else
+       let r1 := if cpRev c e &&& 1 != 0 || cpRev c e &&& 4 != 0 then cliRead w c e else (w, c)
+       let r2 := if cpRev c e &&& 2 != 0 then handleWrite r1.1 r1.2 else r1
+       cpTail (handleInput r2.1 r2.2)) :=
+  clientPass_stages w c e
+
+open Pm.Daemon Pm.Daemon.ClientPf Pm.Daemon.Cap in
+/-- The read stage: the input buffer loses its `cliDropped c e` oldest bytes and gains `cliTaken c e`, a prefix of what
+    the kernel offered (`e.data`) of the planned length (the kernel has nothing to offer on an error, `rk = 1`, or at end
+    of file, `rk = 2`); the size becomes the planned one; one `read` is logged, with the number of bytes taken (0 at end
+    of file, -1 on an error or when nothing was there); the client is marked as having quit when nothing was taken. -/
+theorem C09_client_read_is_prefix (w : W) (c : Cli) (e : FdEnv) :
+    (cliRead w c (some e)).2.fromBuf = c.fromBuf.drop (cliDropped c e) ++ cliTaken c e ∧
+    (cliRead w c (some e)).2.fromSize = cliSizeAfter c e ∧
+    cliTaken c e <+: e.data ∧
+    (cliTaken c e).length =
+      (Pm.Cbuf.readPlan c.fromSize c.fromBuf.length 1048576 (if e.rk == 1 || e.rk == 2 then 0 else e.data.length)).1 ∧
+    (cliRead w c (some e)).1.sys = w.sys ++ [Sys.read c.fd
+      (if e.rk == 1 then -1 else if e.rk == 2 then 0 else if (cliTaken c e).isEmpty then -1 else ((cliTaken c e).length : Int))] ∧
+    (cliRead w c (some e)).2.quit = (c.quit || (cliTaken c e).isEmpty) :=
+  ⟨(cliRead_spec w c e).1, (cliRead_spec w c e).2.1, cliTaken_prefix c e, cliTaken_length c e, (cliRead_spec w c e).2.2.1,
+    (cliRead_spec w c e).2.2.2⟩
+
+open Pm.Daemon Pm.Daemon.Cap in
+/-- a client with 1020 bytes pending (no line feed among them) in its initial buffer of 1024: of `quit\n` four bytes are
+    read in this pass; the line is completed — and answered — in the next -/
+example :
+    let c : Cli := { id := 1, fd := 1000, fromBuf := List.replicate 1020 97 }
+    let e : FdEnv := { fd := 1000, rev := 1, rk := 0, data := bstr "quit\n", cap := 0 }
+    cliTaken c e = bstr "quit" ∧ cliDropped c e = 0 ∧ cliSizeAfter c e = 1024 := by decide +kernel
+
+/-- **Capacity — device.**  `fromBuf.length ≤ fromSize`, `1024 ≤ fromSize ≤ 65536` (`DevCap`) is an invariant of
+    `_handle_ready_device` and of a whole pass of `dev_post_poll` (any scripts, oracle, kernel answers, reconnects: the
+    cbuf is created once in `dev_create` and survives them), and the size never decreases. -/
+theorem C09_capacity (c : CS) (d : Dev) (env : Env) (o : Oracle) :
+    (DevCap c.dev → DevCap (handleReady c).1.dev ∧ c.dev.fromSize ≤ (handleReady c).1.dev.fromSize) ∧
+    (DevCap d → DevCap (postPoll d env o).1.dev ∧ d.fromSize ≤ (postPoll d env o).1.dev.fromSize) :=
+  ⟨handleReady_cap c, postPoll_cap d env o⟩
+
+/-- `DevCap`, spelled out; a device as `dev_create` leaves it satisfies it -/
+theorem C09_capacity_def (d : Dev) :
+    DevCap d ↔ d.fromBuf.length ≤ d.fromSize ∧ 1024 ≤ d.fromSize ∧ d.fromSize ≤ 65536 :=
+  ⟨fun h => ⟨h.fits, h.min, h.max⟩, fun h => ⟨h.1, h.2.1, h.2.2⟩⟩
+example : DevCap dev0 := ⟨by decide, by decide, by decide⟩
+example : DevCap { dev0 with fromBuf := List.replicate 1024 97 } := ⟨by decide +kernel, by decide, by decide⟩
+
+open Pm.Daemon Pm.Daemon.Cap in
+/-- **Capacity — client.**  `fromBuf.length ≤ fromSize`, `1024 ≤ fromSize ≤ 1048576` (`CliCap`) holds of a client that
+    survives its share of a pass if it held before, and the size has not decreased. -/
+theorem C09_capacity_client (w : W) (c : Cli) (e : Option FdEnv) (c' : Cli) (h : CliCap c)
+    (hc : (clientPass w c e).2 = some c') : CliCap c' ∧ c.fromSize ≤ c'.fromSize :=
+  clientPass_cap w c e c' h hc
+
+open Pm.Daemon Pm.Daemon.Cap in
+theorem C09_capacity_client_def (c : Cli) :
+    CliCap c ↔ c.fromBuf.length ≤ c.fromSize ∧ 1024 ≤ c.fromSize ∧ c.fromSize ≤ 1048576 :=
+  ⟨fun h => ⟨h.fits, h.min, h.max⟩, fun h => ⟨h.1, h.2.1, h.2.2⟩⟩
+open Pm.Daemon Pm.Daemon.Cap in
+example : CliCap { id := 1, fd := 1000 } := ⟨by decide, by decide, by decide⟩
+
+/-- **Nothing is lost below the maximal size — device.**  If the buffer was not full, or is still smaller than
+    `MAX_DEV_BUF` after the call, no pending byte is overwritten: the input buffer afterwards is the old one followed by
+    what the daemon keeps of the bytes read (the telnet-filtered bytes read on tcp). -/
+theorem C09_no_loss_below_max (c : CS) (hf : c.dev.fromBuf.length ≤ c.dev.fromSize)
+    (h : c.dev.fromBuf.length < c.dev.fromSize ∨ (handleReady c).1.dev.fromSize < 65536) :
+    readDropped c = 0 ∧ (handleReady c).1.dev.fromBuf = c.dev.fromBuf ++ keptOf c.dev (readTaken c) := by
+  have h0 : readDropped c = 0 := by
+    rcases h with h | h
+    · exact readDropped_of_room c h
+    · exact readDropped_below_max c hf h
+  refine ⟨h0, ?_⟩
+  rw [handleReady_fromBuf, h0, List.drop_zero]
+
+/-- … over a whole pass of `dev_post_poll` (`passDropped` is the loss term of `C09_pass_connected`) -/
+theorem C09_pass_no_loss (d : Dev) (env : Env) (o : Oracle) (hf : d.fromBuf.length ≤ d.fromSize)
+    (h : d.fromBuf.length < d.fromSize ∨ (postPoll d env o).1.dev.fromSize < 65536) : passDropped d env = 0 :=
+  passDropped_zero d env o hf h
+
+open Pm.Daemon Pm.Daemon.Cap in
+/-- **Nothing is lost below the maximal size — client.** -/
+theorem C09_client_no_loss_below_max (w : W) (c : Cli) (e : FdEnv) (hf : c.fromBuf.length ≤ c.fromSize)
+    (h : c.fromBuf.length < c.fromSize ∨ cliSizeAfter c e < 1048576) :
+    cliDropped c e = 0 ∧ (cliRead w c (some e)).2.fromBuf = c.fromBuf ++ cliTaken c e := by
+  have h0 : cliDropped c e = 0 := by
+    rcases h with h | h
+    · exact cliDropped_of_room c e h
+    · exact cliDropped_below_max c e hf h
+  refine ⟨h0, ?_⟩
+  rw [(cliRead_spec w c e).1, h0, List.drop_zero]
+
+/-- **At the maximal size the oldest bytes give way — device.**  In general the number of bytes overwritten is the number
+    of bytes read less the room there is after growing (or nothing); and when `MAX_DEV_BUF` unconsumed bytes are pending,
+    a `read` asks for a chunk of 1000, takes what the kernel has of it, and exactly as many of the *oldest* pending bytes
+    are lost: the buffer afterwards is the old one without its first `|readTaken c|` bytes, followed by what is kept of
+    the bytes read (`device.c` logs "lost %d chars due to buffer wrap"; expects now see a stream with a hole). -/
+theorem C09_overflow_drops_oldest (c : CS) :
+    (readDropped c = (readTaken c).length - ((handleReady c).1.dev.fromSize - c.dev.fromBuf.length) ∨ readDropped c = 0) ∧
+    (c.dev.fromSize = 65536 → c.dev.fromBuf.length = 65536 →
+      readDropped c = (readTaken c).length ∧ (readTaken c).length ≤ 1000 ∧
+      (∀ bs, c.env.read = some (some bs) → readTaken c = [] ∨ readTaken c = bs.take 1000) ∧
+      (handleReady c).1.dev.fromBuf = c.dev.fromBuf.drop (readTaken c).length ++ keptOf c.dev (readTaken c)) := by
+  refine ⟨readDropped_eq c, fun hs hfull => ?_⟩
+  obtain ⟨h1, h2, h3⟩ := readDropped_full c hs hfull
+  exact ⟨h1, h2, h3, by rw [handleReady_fromBuf, h1]⟩
+
+/-- `Cap.Ex.fullPipe`: a connected coprocess device whose buffer holds 65536 unconsumed bytes (all `a`), readable, the kernel
+    has `x y z`: the three oldest `a` are gone, the buffer is still 65536 bytes long and ends in `x y z` -/
+example :
+    Cap.Ex.fullPipe.dev.fromBuf = List.replicate 65536 97 ∧ Cap.Ex.fullPipe.dev.fromSize = 65536 ∧
+    Cap.Ex.fullPipe.env.read = some (some [120, 121, 122]) ∧ DevCap Cap.Ex.fullPipe.dev ∧
+    readDropped Cap.Ex.fullPipe = 3 ∧ readTaken Cap.Ex.fullPipe = [120, 121, 122] ∧
+    (handleReady Cap.Ex.fullPipe).1.dev.fromBuf = List.replicate 65533 97 ++ [120, 121, 122] ∧
+    (handleReady Cap.Ex.fullPipe).1.dev.fromSize = 65536 :=
+  ⟨rfl, rfl, rfl, Cap.Ex.fullPipe_cap, Cap.Ex.fullPipe_spec.1, Cap.Ex.fullPipe_spec.2.1, Cap.Ex.fullPipe_spec.2.2.1,
+    Cap.Ex.fullPipe_spec.2.2.2⟩
+
+open Pm.Daemon Pm.Daemon.Cap in
+/-- **At the maximal size the oldest bytes give way — client.**  (A client that sends a megabyte without a line feed.) -/
+theorem C09_client_overflow_drops_oldest (w : W) (c : Cli) (e : FdEnv) :
+    cliDropped c e = (cliTaken c e).length - (cliSizeAfter c e - c.fromBuf.length) ∧
+    (c.fromSize = 1048576 → c.fromBuf.length = 1048576 →
+      cliSizeAfter c e = 1048576 ∧ cliDropped c e = (cliTaken c e).length ∧
+      cliTaken c e = (if e.rk == 1 || e.rk == 2 then [] else e.data.take 1000) ∧
+      (cliRead w c (some e)).2.fromBuf = c.fromBuf.drop (cliTaken c e).length ++ cliTaken c e) := by
+  refine ⟨cliDropped_eq c e, fun hs hfull => ?_⟩
+  obtain ⟨h1, h2, h3⟩ := cli_full c e hs hfull
+  exact ⟨h1, h2, h3, by rw [(cliRead_spec w c e).1, h2]⟩
+
+/-- **The device's short write.**  The descriptor is reported writable (and not readable), the device is connected,
+    something is queued and the `write` does not fail.  If the kernel takes `wcap ≥ 1` bytes, no error is reported, one
+    `write` of the first `min wcap |toBuf|` bytes is logged, and these bytes followed by what stays queued are what was
+    queued: nothing lost, repeated or reordered.  If it takes nothing (`wcap = 0`, `EAGAIN`), an empty write is logged, the
+    queue is as it was and an i/o error is reported (`_handle_write`: `n < 0` — the caller reconnects, which flushes the
+    queue: `C09_reconnect_clean`). -/
+theorem C09_device_short_write (c : CS) (h : ReadyOk c) (hout : c.env.revents &&& 2 ≠ 0) (hin : c.env.revents &&& 1 = 0)
+    (hc : c.dev.conn ≠ 1) (hb : c.dev.toBuf ≠ []) (hw : c.env.writeOk = true) :
+    (c.env.wcap ≠ 0 → (handleReady c).2 = false ∧
+      ∃ wr, wr ≠ [] ∧ wr.length = min c.env.wcap c.dev.toBuf.length ∧ (handleReady c).1.sys = c.sys ++ [.write wr true] ∧
+        wr ++ (handleReady c).1.dev.toBuf = c.dev.toBuf) ∧
+    (c.env.wcap = 0 → (handleReady c).2 = true ∧ (handleReady c).1.sys = c.sys ++ [.write [] true] ∧
+      (handleReady c).1.dev.toBuf = c.dev.toBuf) :=
+  short_write c h hout hin hc hb hw
+
+/-- `on\n` queued, the descriptor takes two bytes: `on` goes out, the line feed waits -/
+example :
+    let c : CS := { dev := { dev0 with conn := 2, fd := some 7, toBuf := [111, 110, 10] },
+                    env := { now := 0, revents := 2, sockets := [], connects := [], soerrs := [], read := none, writeOk := true,
+                             wcap := 2 },
+                    sys := [] }
+    (handleReady c).1.dev.toBuf = [10] ∧ (handleReady c).2 = false ∧ devWritten (handleReady c).1.sys = [111, 110] := by
+  decide
+/-- the same with a descriptor that takes nothing: i/o error, nothing written, nothing lost (yet) -/
+example :
+    let c : CS := { dev := { dev0 with conn := 2, fd := some 7, toBuf := [111, 110, 10] },
+                    env := { now := 0, revents := 2, sockets := [], connects := [], soerrs := [], read := none, writeOk := true,
+                             wcap := 0 },
+                    sys := [] }
+    (handleReady c).1.dev.toBuf = [111, 110, 10] ∧ (handleReady c).2 = true := by decide
 
 end Pm.Props.C09
